@@ -348,8 +348,10 @@ namespace Logrange.Truncate
 def deleteJournalSeen (recheck synced : Bool) (users confirmed unflushed : Nat) : Bool :=
   users == 0 && (!recheck || confirmed + (if synced then unflushed else 0) == 0)
 
-/-- the `size == 0` branch of the visitor in a DRY run: it looks at `Size()` only (no Sync, no `deleteJournal`) and
-reports the partition as deleted -/
-def dryAnnouncesDrop (confirmed : Nat) : Bool := confirmed == 0
+/-- the `size == 0` branch of the visitor in a DRY run: it reports the partition as deleted from `Size()` alone (no
+`deleteJournal`); `synced` = the visitor calls `Sync()` before it reads `Size()` (fix 466355c), so `Size()` then counts
+the acknowledged records that were waiting for their flush -/
+def dryAnnouncesDrop (synced : Bool) (confirmed unflushed : Nat) : Bool :=
+  confirmed + (if synced then unflushed else 0) == 0
 
 end Logrange.Truncate
